@@ -44,6 +44,8 @@ CONSTANTS
   Orgs,         \* start addresses
   RelFpuOK,     \* TRUE: 68000 Bcc.S also tolerates first-pass-unknown operands (mFirstPassUnknownOrQuestionable)
   Fixed,        \* FALSE = SymbolAdder of the pinned tree, TRUE = repaired
+  PageReset,    \* TRUE: the target's per-pass initialiser (AddInitPassProc: InitCode_6809, InitCode_65) puts the
+                \* assumed page register back to 0; FALSE models a generator that initialises it only at start-up
   ThrowErrors,  \* command line option -Y
   ThrowMaxPass, \* -Y discards jump errors only in passes <= ThrowMaxPass.  3 (the saturated pass number) = in
                 \* every pass = pinned tree; 2 = abstraction of the repair (THROWERRORSMAXPASS = 32 in C)
@@ -65,12 +67,13 @@ MaxSymPass == 1
 (*           (SymWert), ent (value the node was entered with; repair only) *)
 (*   errs    ErrorCount      jmp  JmpErrors                                *)
 (*   lab     pLabelEntry     labv LabelValue      (asmlabel.c)             *)
+(*   page    DPRValue / RegB: the direct page declared by the last ASSUME  *)
 (*   lay     what WriteCode emitted in this pass                           *)
 (*   patched some label was moved by LabelModify (diagnostic / finding key)*)
 
 NoSym == [known |-> FALSE, defd |-> FALSE, val |-> 0, ent |-> 0]
 FreshM(o) == [pc |-> o, sym |-> [l \in Labels |-> NoSym], repass |-> FALSE, errs |-> 0, jmp |-> 0,
-              lab |-> NoLab, labv |-> -1, lay |-> <<>>, patched |-> FALSE]
+              lab |-> NoLab, labv |-> -1, lay |-> <<>>, patched |-> FALSE, page |-> 0]
 
 \* asmpars.c LookupSymbol
 LookupSymbol(s, l, ps) ==
@@ -141,11 +144,13 @@ Statement(s0, it, ps) ==
         CASE it.k = "def"  -> Emit(s, pd, 2, -1)
           [] it.k = "fill" -> Emit(s, pd, it.n, -1)
           [] it.k = "ins"  -> Emit(s, pd, 2, -1)
+          [] it.k = "asm"  -> Emit([s EXCEPT !.page = it.pg], pd, 0, -1)      \* codepseudo ASSUME: DPRValue := pg
           [] IsAbs(it)     -> LET r == Operand(s, it, ps) IN
                               IF r.ok THEN Emit(r.s, pd, it.w, r.val) ELSE Emit(r.s, pd, 0, -1)
           [] IsVar(it)     -> LET r == Operand(s, it, ps) IN
                               IF ~r.ok THEN Emit(r.s, pd, 0, -1)
-                              ELSE Emit(r.s, pd, IF ShortOK(r.val, s.pc) THEN VarShort ELSE VarLong, r.val)
+                              ELSE LET short == ShortOK(r.val, s.pc, s.page) IN     \* Hi(AdrInt) == DPRValue
+                                   Emit(r.s, pd, IF short THEN VarShort ELSE VarLong, Field(short, r.val))
           [] IsRel(it)     -> LET r == Operand(s, it, ps) IN
                               IF ~r.ok THEN Emit(r.s, pd, 0, -1)
                               ELSE IF ~Disp8(r.val - (s.pc + 2)) /\ ~r.quest /\ ~(RelFpuOK /\ r.fpu)
@@ -159,6 +164,7 @@ Statement(s0, it, ps) ==
 \* as.c AssembleFile_InitPass + ResetSymbolDefines + AsmErrPassInit; JmpErrors is *not* reset by the code
 InitPass(s, o) ==
   [s EXCEPT !.pc = o, !.repass = FALSE, !.errs = 0, !.lab = NoLab, !.labv = -1, !.lay = <<>>,
+            !.page = IF PageReset THEN 0 ELSE @,
             !.sym = [l \in Labels |-> [s.sym[l] EXCEPT !.defd = FALSE]]]
 
 Vals(s) == [l \in Labels |-> IF s.sym[l].known THEN s.sym[l].val ELSE -1]
